@@ -303,9 +303,78 @@ fn one(rep: &mut Report, words: &[u32], trailer: &[u8]) {
     }
 }
 
+/// Long headers: N pairs (N up to 40) with sorted tags and offsets except for one adjacent
+/// descent at each position in turn (tags, then offsets), and the fully sorted message.
+fn long_headers(ctx: &Ctx, rep: &mut Report, unit: &mut usize) {
+    for n in 2..=40usize {
+        let u = *unit;
+        *unit += 1;
+        if !ctx.owns(u) {
+            continue;
+        }
+        // values of 1 byte each: offsets 1, 2, ..., n-1; tags 10, 20, ..., 10n
+        let base_offsets: Vec<u32> = (1..n as u32).collect();
+        let base_tags: Vec<u32> = (1..=n as u32).map(|i| 10 * i).collect();
+        let build_msg = |offsets: &[u32], tags: &[u32]| -> Vec<u8> {
+            let mut words = vec![n as u32];
+            words.extend_from_slice(offsets);
+            words.extend_from_slice(tags);
+            let mut buf = build(&words, &[]);
+            buf.extend((0..n).map(|i| 0x40 + i as u8));
+            buf
+        };
+        one_buffer(rep, &build_msg(&base_offsets, &base_tags));
+        for p in 0..n - 1 {
+            // a descent between tags p and p+1
+            let mut tags = base_tags.clone();
+            tags[p + 1] = tags[p] - 1;
+            one_buffer(rep, &build_msg(&base_offsets, &tags));
+            // equal neighbours are allowed
+            let mut tags = base_tags.clone();
+            tags[p + 1] = tags[p];
+            one_buffer(rep, &build_msg(&base_offsets, &tags));
+            if p + 1 < base_offsets.len() {
+                let mut offsets = base_offsets.clone();
+                offsets[p + 1] = offsets[p] - 1;
+                one_buffer(rep, &build_msg(&offsets, &base_tags));
+            }
+        }
+        // last offset beyond the payload
+        let mut offsets = base_offsets.clone();
+        *offsets.last_mut().unwrap() = n as u32 + 1;
+        one_buffer(rep, &build_msg(&offsets, &base_tags));
+    }
+    rep.note("long headers: N = 2..=40 pairs of 1-byte values, fully sorted, and with a single adjacent descent (or tie) at every position among the tags and among the offsets, and a last offset beyond the payload".to_string());
+}
+
+fn one_buffer(rep: &mut Report, buf: &[u8]) {
+    rep.evaluations += 1;
+    let owned = (rep.evaluations & 1) == 0;
+    match check_buffer(buf, owned) {
+        Ok(accepted) => {
+            if accepted {
+                rep.nontrivial += 1;
+                rep.transitions += 1;
+            }
+            rep.count("long_header_buffers", 1);
+        }
+        Err(e) => violation_long(rep, buf, owned, &e),
+    }
+}
+
+fn violation_long(rep: &mut Report, buf: &[u8], owned: bool, err: &str) {
+    let full: String = buf.iter().map(|b| format!("{:02X}", b)).collect::<Vec<_>>().join(" ");
+    rep.violation(Violation {
+        key: format!("C12:{}", full.replace(' ', "")),
+        summary: format!("MessageView on a {}-byte buffer with N = {}: {}", buf.len(), u32::from_le_bytes(buf[0..4].try_into().unwrap()), err),
+        replay_text: format!("check: view\nbuffer: {}\nowned: {}\nobserved: {}\n", full, owned, err),
+    });
+}
+
 pub fn run(ctx: &Ctx) -> Report {
     let mut rep = Report::new();
     let mut unit = 0usize;
+    long_headers(ctx, &mut rep, &mut unit);
     let w = ctx.tier.pick(7, 8);
     enumerate(ctx, &mut rep, &WORDS, w, &mut unit);
     let w_small = ctx.tier.pick(8, 9);
